@@ -1623,6 +1623,11 @@ class CodeGenerator(NodeVisitor):
         """
         const = node.as_const(frame.eval_ctx)
 
+        # Only values that read back as themselves are folded (a set's text
+        # follows the string hash order, an arbitrary object's its address).
+        if not has_safe_repr(const):
+            raise nodes.Impossible()
+
         # Whether to escape is only known at runtime in a volatile frame.
         if frame.eval_ctx.volatile:
             raise nodes.Impossible()
